@@ -86,6 +86,26 @@ func arrayLen(f *hc.Facts, lean, dir, typ string) {
 	f.Missing(lean, dir+"."+typ+" is not declared as [N]byte")
 }
 
+// lenGuards lists, for one function, the conditions of its `if` statements that mention `len(`
+// (the bounds checks that make the slice operations after them safe), as canonical source text.
+func lenGuards(f *hc.Facts, lean, dir, fn string) {
+	fd := f.FuncDecl(dir, fn)
+	if fd == nil || fd.Body == nil {
+		f.Missing(lean, dir+"."+fn+" not found")
+		return
+	}
+	var xs []string
+	ast.Inspect(fd.Body, func(n ast.Node) bool {
+		if is, ok := n.(*ast.IfStmt); ok {
+			if src := f.Src(is.Cond); strings.Contains(src, "len(") {
+				xs = append(xs, strconv.Quote(src))
+			}
+		}
+		return true
+	})
+	f.Raw(fmt.Sprintf("def %s : List String := [%s] -- len-guards of %s.%s in source order", lean, strings.Join(xs, ", "), dir, fn))
+}
+
 func facts(f *hc.Facts) {
 	f.Const("word", "bin", "Word")
 	f.Const("maxSmallStringLength", "bin", "maxSmallStringLength")
@@ -105,6 +125,15 @@ func facts(f *hc.Facts) {
 	intLits(f, "encodeStringLits", "bin", "encodeString")
 	intLits(f, "decodeBytesLits", "bin", "decodeBytes")
 	intLits(f, "decodeStringLits", "bin", "decodeString")
+	lenGuards(f, "guardsDecodeBytes", "bin", "decodeBytes")
+	lenGuards(f, "guardsDecodeString", "bin", "decodeString")
+	lenGuards(f, "guardsPeekID", "bin", "Buffer.PeekID")
+	lenGuards(f, "guardsPeekN", "bin", "Buffer.PeekN")
+	lenGuards(f, "guardsUint64", "bin", "Buffer.Uint64")
+	lenGuards(f, "guardsString", "bin", "Buffer.String")
+	lenGuards(f, "guardsBytes", "bin", "Buffer.Bytes")
+	lenGuards(f, "guardsInt128", "bin", "Buffer.Int128")
+	lenGuards(f, "guardsInt256", "bin", "Buffer.Int256")
 }
 
 // ---- implementation adapters ------------------------------------------------------------
